@@ -747,9 +747,10 @@ func (w *World) Step(e Event) (RespObs, *Req, Resp) {
 		}
 	}
 	var pre *Obs
-	if w.refreshT0() {
+	if w.refreshT0() || w.needPre {
 		o := w.Project()
 		pre = &o
+		w.needPre = false
 	}
 	rq := w.BuildReq(e)
 	w.rebaseSMS()
